@@ -209,9 +209,15 @@ pub fn run(tier: Tier) -> RunOutcome {
     let mut prob = with_sim(|s| gen_problem(&mut s.cs, &opts));
     let mut settings = with_sim(|s| gen_settings(&mut s.cs, false));
     // settings values that must survive the round trip
-    match choose("tl", 3) {
+    match choose("tl", 7) {
         1 => settings.time_limit = 1.5,
         2 => settings.time_limit = 1e-3,
+        // extreme but finite values must survive too (f64::MAX itself is the
+        // file format's stand-in for "infinite" and is not used here)
+        3 => settings.time_limit = f64::from_bits(f64::MAX.to_bits() - 1),
+        4 => settings.time_limit = 1.79e308,
+        5 => settings.time_limit = 1e300,
+        6 => settings.time_limit = f64::MIN_POSITIVE,
         _ => {} // infinite
     }
     settings.max_iter = [60, 200, 7][choose("mi", 3) as usize];
